@@ -339,6 +339,27 @@ impl Ast {
         self.add_element(element)
     }
 
+    /// Moves a member (a field, enumerator, operation, parameter or return member) into this AST, and returns a
+    /// [WeakPtr] to it. An entry is added for the member to this AST's [lookup table](Ast::lookup_table) unless its
+    /// identifier is already taken by a definition: the member 'f' of 'A::S' and a definition 'f' in a module 'A::S' of
+    /// another file share the identifier 'A::S::f', and the definition must win no matter which was parsed first.
+    pub(crate) fn add_member<T: NamedSymbol>(&mut self, element: OwnedPtr<T>) -> WeakPtr<T>
+    where
+        OwnedPtr<T>: Into<Node>,
+    {
+        let scoped_identifier = element.borrow().parser_scoped_identifier();
+        let is_taken_by_definition = self.lookup_table.get(&scoped_identifier).is_some_and(|i| {
+            matches!(
+                self.elements[*i],
+                Node::Struct(_) | Node::Interface(_) | Node::Enum(_) | Node::CustomType(_) | Node::TypeAlias(_),
+            )
+        });
+        if !is_taken_by_definition {
+            self.lookup_table.insert(scoped_identifier, self.elements.len());
+        }
+        self.add_element(element)
+    }
+
     /// Moves a module into this AST, and returns a [WeakPtr] to it. An entry is added for the module to this AST's
     /// [lookup table](Ast::lookup_table) only if its identifier isn't already taken: modules can be re-opened, and
     /// must not hide a definition with the same scoped identifier, no matter which of the two was parsed first.
